@@ -5,7 +5,10 @@ seeded/<id>/meta.json ("detection") and seeded/RESULTS.md. Nothing is ever commi
 import glob, json, os, re, subprocess, sys, time
 ROOT = os.path.dirname(os.path.dirname(os.path.abspath(__file__)))
 EXTRA = {"C01a": ["C06"], "C01b": ["C05"], "C02a": ["C04"], "C02b": ["C04"], "C03a": ["C10"], "C03b": ["C08", "C05"], "C04b": ["C05"], "C05a": ["C07"],
-         "C07a": ["C05"], "C07b": ["C04"], "C08a": ["C10"], "C08b": ["C05"], "C09a": ["C10"], "C09b": ["C10"], "C10b": ["C08"], "C17a": ["C14"], "C17b": ["C14"]}
+         "C07a": ["C05"], "C07b": ["C04"], "C08a": ["C10"], "C08b": ["C05"], "C09a": ["C10"], "C09b": ["C10"], "C10b": ["C08"], "C17a": ["C14"], "C17b": ["C14"],
+         # round 2 (ids ending in c / d)
+         "C01d": ["C05"], "C02c": ["C04"], "C02d": ["C04"], "C03d": ["C05"], "C04d": ["C05"], "C07d": ["C05"], "C09c": ["C10"], "C09d": ["C10"], "C11d": ["C12"],
+         "C12d": ["C13"], "C13c": ["C18"], "C13d": ["C12"], "C17c": ["C18"]}
 args = sys.argv[1:]; tier = "quick"
 if "--tier" in args: i = args.index("--tier"); tier = args[i + 1]; del args[i:i + 2]
 ids = args or sorted(os.path.basename(d) for d in glob.glob(ROOT + "/seeded/C*"))
